@@ -152,6 +152,13 @@ func TestVerifC10Collector(t *testing.T) {
 		for _, l := range fready {
 			w.failReady[l] = true
 		}
+		var fnotready []string
+		if len(cfg.exts) > 0 && rnd.IntN(8) == 0 {
+			fnotready = append(fnotready, fmt.Sprintf("x%d", cfg.exts[rnd.IntN(len(cfg.exts))].id))
+		}
+		for _, l := range fnotready {
+			w.failNotReady[l] = true
+		}
 
 		m := vMaps(w, cfg)
 		col, err := NewCollector(CollectorSettings{
@@ -222,6 +229,9 @@ func TestVerifC10Collector(t *testing.T) {
 		if !cameUp && len(w.log) == 0 {
 			// configuration validation or service.New rejected it: nothing may exist that was started
 			out.Linef("obs new err=%s", vColErrClass(msg))
+			if cls := vColErrClass(msg); cls == "extcycle" || cls == "extmissing" {
+				out.Linef("tr extmsg %s", vExtMsgTokens(msg))
+			}
 			out.Linef("stat rejected_%s 1", strings.SplitN(vColErrClass(msg), ":", 2)[0])
 			out.Linef("stat pipelines %d", len(cfg.pipes))
 			out.Linef("end")
@@ -243,6 +253,9 @@ func TestVerifC10Collector(t *testing.T) {
 		for _, l := range fready {
 			out.Linef("op failready %s", l)
 		}
+		for _, l := range fnotready {
+			out.Linef("op failnotready %s", l)
+		}
 		out.Linef("op run")
 		var stops, stopFails, startLog, stopLog []string
 		for _, e := range w.log {
@@ -262,6 +275,8 @@ func TestVerifC10Collector(t *testing.T) {
 				if e.fail {
 					stopFails = append(stopFails, e.label)
 				}
+			case "notready":
+				stopLog = append(stopLog, e.kind+"."+e.label+"="+res)
 			}
 		}
 		for _, e := range w.extInst {
